@@ -219,7 +219,7 @@ pub fn batch_inversion<F: PrimeField>(v: &mut [F])
 // ---------------------------------------------------------------------------------------------
 // A2  group: abelian group with scalar action; msm is the sum; Err exactly on length mismatch
 // ---------------------------------------------------------------------------------------------
-pub trait AffineRepr: 'static + Sized + Copy + Clone + core::fmt::Debug + PartialEq {
+pub trait AffineRepr: 'static + Sized + Copy + Clone + core::fmt::Debug + PartialEq + Mul<<Self as AffineRepr>::ScalarField, Output = <Self as AffineRepr>::Group> {
     type ScalarField: PrimeField;
     type Group: GroupOps<Self, Self::ScalarField>;
     spec fn p_zero() -> Self;
@@ -279,7 +279,14 @@ pub broadcast axiom fn gax_add_req<G: AffineRepr>(a: G::Group, b: G::Group)
     ensures #[trigger] <G::Group as AddSpec<G::Group>>::add_req(a, b), <G::Group as AddSpec<G::Group>>::obeys_add_spec();
 pub broadcast axiom fn gax_obeys<G: AffineRepr>()
     ensures #[trigger] <G::Group as AddSpec<G::Group>>::obeys_add_spec();
-pub broadcast group group_ops { gax_link, gax_zero, gax_add, gax_add_req, gax_obeys }
+// `point * scalar` (ark-ec: impl Mul<ScalarField> for Affine, Output = Projective)
+pub broadcast axiom fn gax_pmul<G: AffineRepr>(a: G, s: G::ScalarField)
+    ensures (#[trigger] <G as MulSpec<G::ScalarField>>::mul_spec(a, s)).aff() == G::p_smul(s, a);
+pub broadcast axiom fn gax_pmul_req<G: AffineRepr>(a: G, s: G::ScalarField)
+    ensures #[trigger] <G as MulSpec<G::ScalarField>>::mul_req(a, s);
+pub broadcast axiom fn gax_pmul_obeys<G: AffineRepr>()
+    ensures #[trigger] <G as MulSpec<G::ScalarField>>::obeys_mul_spec();
+pub broadcast group group_ops { gax_link, gax_zero, gax_add, gax_add_req, gax_obeys, gax_pmul, gax_pmul_req, gax_pmul_obeys }
 
 pub axiom fn gax_add_comm<G: AffineRepr>(a: G, b: G) ensures G::p_add(a, b) == G::p_add(b, a);
 pub axiom fn gax_add_assoc<G: AffineRepr>(a: G, b: G, c: G) ensures G::p_add(G::p_add(a, b), c) == G::p_add(a, G::p_add(b, c));
